@@ -21,10 +21,10 @@ theorem DId.client_start (s0 : Nat) : ∀ a ∈ clStart s0, DId.Kept a := by
   all_goals (try (simp only [isOp, atPc, notifySink, setReaderChan, readerChan, readerIdx, flushRead, mapRead, mapMoved, chanOp, lockOk, monMapped, outLen_eq, getS, getD0_eq, getD_idx0, getD1_eq, getD_idx1, Bool.and_eq_true, Bool.or_eq_true, decide_eq_true_eq, Bool.not_eq_true', ne_eq] at hg ⊢))
   all_goals (try (simp at hg; done))
   all_goals (repeat' split)
-  all_goals (intro hf he hm hF)
-  all_goals (first | (cases hm; done) | (obtain ⟨k1, k2, k3, k4, k5, k6, k7, k8, k9, k10, k11, k12, k13⟩ := hU _ hf he hm))
-  all_goals (first | (obtain ⟨d1, d2, d3, d4⟩ := hL _ hf he hm))
-  all_goals (first | (obtain ⟨i1, i2, i3, i3', i4, i4', i5, i6, i7⟩ := h _ hf he hm hF))
+  all_goals (intro he hm hF)
+  all_goals (first | (cases hm; done) | (obtain ⟨k1, k2, k3, k4, k5, k6, k7, k8, k9, k10, k11, k12, k13⟩ := hU _ he hm))
+  all_goals (first | (obtain ⟨d1, d2, d3, d4⟩ := hL _ he hm))
+  all_goals (first | (obtain ⟨i1, i2, i3, i3', i4, i4', i5, i6, i7⟩ := h _ he hm hF))
   all_goals (
     have hn1 := nrd_pos k3
     have hrm0 := cv_rmap0 k1 hn1
